@@ -98,7 +98,7 @@ def split_blocks(out):
     return blocks
 
 
-def run_group(group, tier, repo='/repo', only=None):
+def run_group(group, tier, repo='/repo', only=None, _retry=False):
     """group: {"files": ["kani/x.rs", ...], "jobs": 8}"""
     t0 = time.time()
     files = [os.path.join(VERIF, f) for f in group['files']]
@@ -124,6 +124,11 @@ def run_group(group, tier, repo='/repo', only=None):
                '--harness-timeout', '%ds' % budget, '--output-format', 'terse', '-j', str(group.get('jobs', 8))]
         for m in sel:
             cmd += ['--harness', m['name']]
+        # the Kani target directory is shared (incremental builds): two runs at once (two properties, or a scratch run next to
+        # a /repo run) would overwrite each other's goto binaries while CBMC reads them.  One Kani run at a time.
+        import fcntl
+        lockf = open(os.path.join(CACHE, 'kani.lock'), 'w')
+        fcntl.flock(lockf, fcntl.LOCK_EX)
         try:
             p = subprocess.run(cmd, cwd=scratch, env=env, stdout=subprocess.PIPE, stderr=subprocess.STDOUT, text=True,
                                timeout=budget * max(1, (len(sel) + 7) // 8) + 600)
@@ -150,6 +155,9 @@ def run_group(group, tier, repo='/repo', only=None):
                 elif 'VERIFICATION:- FAILED' in txt:
                     h['status'] = 'FAILED'
                     fl = [l.strip() for l in b if l.startswith('Failed Checks:')]
+                    if not fl or re.search(r'CBMC failed with status|CBMC crashed|out of memory|killed', txt, re.I):
+                        # CBMC itself died (resources, unreadable goto binary): no check of the harness was refuted
+                        h['status'] = 'TOOL-ERROR'
                     h['failed_check'] = ' ; '.join(fl)[:600]
                     h['output_tail'] = '\n'.join(b[-40:])[:4000]
                     # unwinding assertion failures mean the bound is too small, not that the code is wrong
@@ -176,7 +184,18 @@ def run_group(group, tier, repo='/repo', only=None):
                 except subprocess.TimeoutExpired:
                     pass
     finally:
+        try:
+            lockf.close()      # releases the flock
+        except NameError:
+            pass
         shutil.rmtree(scratch, ignore_errors=True)
+    # a harness on which CBMC died or produced no result is run once more on its own (resource contention)
+    again = [h['name'] for h in res['harnesses'] if h['status'] in ('TOOL-ERROR', 'NO-RESULT')]
+    if again and not _retry and not res['undecided']:
+        r2 = run_group(dict(group, jobs=min(4, len(again))), tier, repo, only=again, _retry=True)
+        by = {h['name']: h for h in r2['harnesses']}
+        res['harnesses'] = [by.get(h['name'], h) for h in res['harnesses']]
+        res['undecided'] += r2['undecided']
     res['wall_s'] = time.time() - t0
     return res
 
